@@ -5,8 +5,22 @@
     the abstract buffer object after the call must be the *same* value as before (no store reached it).
  T  totality for lengths >= 32: the same interpretation for every length 32..=100 and the boundary lengths
     127,128,129,255,256,257,1000 (multiples of 16 and not): result Ok, every panic edge discharged.
-    Lengths beyond those are not decided (the loop/slice bounds are relational in the length).
-Conformance with STB 34.101.31 and dec(enc(x)) = x are not decided.
+    Lengths beyond those are covered by TA.
+ TA totality for *every* length >= 32 at once: one interpretation with the length an unknown in [32, isize::MAX]
+    carried as a linear term (`len`), the buffer summarised by one unknown byte.  Slice bounds such as
+    `data[len - 32..]`, `copy_within(16.., 0)` and `try_from(&data[len - 16..])` are decided relationally:
+    two values whose linear normal forms differ by a constant are compared exactly when the interval of one
+    shows that the constant offset cannot wrap (ops._cmp_relational).  Loops over the length are solved by
+    widening.  Result must be Ok on every path and every panic edge discharged.
+ S  step reference (engine L3, per enumerated length): on a symbolic buffer b[0..L) and key, with belt_block_raw an
+    uninterpreted function E, belt_wblock_enc must leave exactly the bytes of the reference transformation
+        n = ceil(L / 16);  for i = 1 .. 2n:   s = b_1 ^ .. ^ b_{n-1}   (the full 16-byte blocks that end before byte L-1)
+                                              b = b[16..L] || s ;   b[L-32 .. L-16] ^= E(s) ^ <i>_le
+    (STB 34.101.31 belt-wblock as restated in the property text), and belt_wblock_dec the bytes of its exact inverse
+    sequence (i = 2n .. 1).  Compared as hash-consed terms; no buffer or key is enumerated.
+ Si the same comparison for *one* round with the round counter a symbol i (any round number, in particular i >= 256,
+    which needs buffers of 2033 bytes or more): <i>_le must be all bytes of i.
+dec(enc(x)) = x is decided under C01.  That E is the BelT block cipher is conformance (C07) and not decided.
 """
 from facts import *
 from engine import *
@@ -40,11 +54,152 @@ def _one(job):
                 fails=[(s.desc, s.key[0], s.why[:200]) for s in fails[:3]], sites=len(I.sites))
 
 
+def all_lengths(m, cfgname, fname):
+    """belt_wblock_enc / _dec on a buffer of unknown length in [32, isize::MAX] (relational in `len`)"""
+    import equiv, engine
+    import terms as T
+    inst = m.roots['verif_root__belt_block__free__' + fname]
+    f = m.fn(inst)
+    with equiv.TermMode():
+        engine._INTERPS.clear()
+        I = mk_interp(m, 30_000_000)
+        st = State()
+        n = AInt(64 if I.usize(0).w == 64 else 32, 32, (1 << (I.usize(0).w - 1)) - 1, term=T.sym('len', I.usize(0).w))
+        data = slice_arg(I, st, n, 'data')
+        args = default_args(I, st, f, {1: data})
+        status, r = run_engine(I, inst, args, st)
+        fails = failed_sites(I)
+        out = dict(cfg=cfgname, fn=fname, status=status, variant=(r.variant if isinstance(r, Enum) else None),
+                   why=(str(r)[:300] if status in ('unsupported', 'budget') else ''),
+                   fails=[(s.desc, s.key[0], s.why[:200]) for s in fails[:5]], sites=len(I.sites))
+    engine._INTERPS.clear()
+    return out
+
+
+LOOP_NEXT = ('core::iter::range::<impl core::iter::traits::iterator::Iterator for core::ops::range::Range<A>>::next',
+             '<core::iter::adapters::rev::Rev<I> as core::iter::traits::iterator::Iterator>::next')
+STEP_SYM = [32, 33, 47, 48, 49, 64, 65]
+STEP_QUICK = list(range(32, 50)) + [63, 64, 65, 80]
+STEP_THOROUGH = list(range(32, 130))
+
+
+def step_reference(job):
+    """rule S for one (function, length): returns (cfg, fn, n, sym, ok, detail).
+    sym: interpret exactly one iteration of the round loop with the round counter a *symbol* i (the loop's own
+    `Iterator::next` call in the wide-block function is answered Some(i) once, then None)"""
+    cfgname, fdir, fname, n, sym = job
+    import equiv, engine
+    import terms as T
+    from interp import Ptr
+    if fdir not in _F:
+        _F.clear()
+        _F[fdir] = Facts(cfgname, fdir)
+    m = _F[fdir].mono
+    inst = m.roots['verif_root__belt_block__free__' + fname]
+    f = m.fn(inst)
+    with equiv.TermMode():
+        engine._INTERPS.clear()
+        I = mk_interp(m, 60_000_000)
+        raws = [g['path'] for g in m.fns if g['crate'] == 'belt_block' and g.get('name') == 'belt_block_raw']
+        if not raws:
+            return (cfgname, fname, n, sym, None, 'belt_block_raw not found')
+        I.summaries = {p: ('deep', 'beltE') for p in raws}
+        st = State()
+        fired = []
+        if sym:
+            w = I.usize(0).w
+            isym = AInt(w, 1, (1 << (w - 1)) - 1, term=T.sym('i', w))
+
+            def mk(orig_name):
+                def next_model(I_, frame, st_, a, callee):
+                    if frame.fn.get('name') != fname or frame.fn.get('crate') != 'belt_block':
+                        return I_.call_fn(callee['inst'], a, st_, frame.depth + 1)
+                    fired.append(1)
+                    rt = I_.cur_dest_ty
+                    return Enum(rt, 1, [isym]) if len(fired) == 1 else Enum(rt, 0, [])
+                return next_model
+            for nm in LOOP_NEXT:
+                I.models[nm] = mk(nm)
+        I.fresh += 1
+        dobj = ('P', 'data', I.fresh)
+        dsyms = [topint(8, False, T.sym('b[%d]' % i, 8)) for i in range(n)]
+        st.mem[dobj] = Arr(u8_slice_type(I), dsyms)
+        data = Ptr(dobj, (), I.usize(0), I.usize(n), None, None, True)
+        args = default_args(I, st, f, {1: data})
+        kv = st.mem[args[1].obj]
+        kd = T.op('mem', 0, *[e.term for e in kv.e])
+        status, r = run_engine(I, inst, [data, args[1]], st)
+        for nm in LOOP_NEXT:
+            I.models.pop(nm, None)
+        if sym and len(fired) != 2:
+            return (cfgname, fname, n, sym, 'loop-form', 'the round loop of %s is not a `for` over a Range / Rev<Range> (its next() was called %d times)' % (fname, len(fired)))
+        if status != 'ok' or not isinstance(r, Enum) or r.variant != 0:
+            return (cfgname, fname, n, sym, None, '%s %s' % (status, str(r)[:200]))
+        got = [x.term for x in st.mem[dobj].e]
+        usz = I.usize(0).w // 8
+
+        def E(sb):
+            ws = [T.cat(32, sb[4 * k:4 * k + 4]) for k in range(4)]
+            out = []
+            for k in range(4):
+                o = T.op('fn:beltE#%d' % k, 32, ws[0], ws[1], ws[2], ws[3], kd)
+                out += [T.slice_(o, 8 * j, 8) for j in range(4)]
+            return out
+
+        def xor(a, b_):
+            return [T.op('BitXor', 8, x, y) for x, y in zip(a, b_)]
+
+        def ctr(i):
+            if sym:
+                return [T.slice_(isym.term, 8 * j, 8) for j in range(usz)] + [T.const(8, 0)] * (16 - usz)
+            return [T.const(8, (i >> (8 * j)) & 0xff) for j in range(usz)] + [T.const(8, 0)] * (16 - usz)
+
+        b = [d.term for d in dsyms]
+        nb = (n + 15) // 16
+        full = [j for j in range(nb) if 16 * j + 16 <= n - 1]       # blocks that end before byte L-1
+        if fname == 'belt_wblock_enc':
+            for i in ([0] if sym else range(1, 2 * nb + 1)):
+                sb = [T.const(8, 0)] * 16
+                for j in full:
+                    sb = xor(sb, b[16 * j:16 * j + 16])
+                b = b[16:] + sb
+                b[n - 32:n - 16] = xor(b[n - 32:n - 16], xor(E(sb), ctr(i)))
+        else:
+            for i in ([0] if sym else range(2 * nb, 0, -1)):
+                sb = b[n - 16:]
+                t = xor(b[n - 32:n - 16], xor(E(sb), ctr(i)))
+                tail = b[:n - 32] + t                      # the old b[16..L)
+                old = [None] * 16 + tail
+                r1 = sb
+                for j in full:
+                    if j >= 1:
+                        r1 = xor(r1, old[16 * j:16 * j + 16])
+                b = r1 + tail
+        for i, (g, w) in enumerate(zip(got, b)):
+            if g is None or g is not w:
+                return (cfgname, fname, n, sym, False, 'byte %d: %s' % (i, T.first_diff(g, w) if g is not None else 'not a term'))
+    engine._INTERPS.clear()
+    return (cfgname, fname, n, sym, True, '%d bytes' % n)
+
+
+def report_all_lengths(chk, rule, x):
+    fname = x['fn']
+    key = '%s|%s|len>=32' % (x['cfg'], fname)
+    if x['status'] in ('unsupported', 'budget'):
+        chk.fail_closed(rule, key + '|' + x['status'], '%s, any length >= 32: %s' % (fname, x['why']))
+    elif x['status'] != 'ok' or x['variant'] != 0:
+        chk.violation(rule, key + '|result', '%s on a buffer of some length >= 32 does not return Ok (%s, variant %s)' % (fname, x['status'], x['variant']))
+    elif x['fails']:
+        for (desc, where, why) in x['fails']:
+            chk.violation(rule, key + '|panic|%s|%s' % (where, desc), '%s on a buffer of some length >= 32: %s in %s can fire: %s' % (fname, desc, where, why))
+    else:
+        chk.ok(rule, key, dict(fn=fname, length='every length in [32, isize::MAX]', result='Ok', panic_edges_discharged=x['sites']))
+
+
 def run(chk, facts_by_config):
     import multiprocessing as mp
     chk.trusted += ['core integer/slice semantics as interpreted from MIR', 'analysis/ops.py transfer functions']
-    chk.undecided += ['totality for lengths not enumerated (relational in len)', 'conformance with STB 34.101.31 6.2.3/6.2.4',
-                      'belt_wblock_dec(belt_wblock_enc(x)) = x']
+    chk.undecided += ['belt_block_raw is the BelT block cipher (conformance, C07)', 'the step reference for lengths not enumerated']
     longs = LONG_THOROUGH if chk.tier == 'thorough' else LONG_QUICK
     jobs = []
     for cfgname, F in facts_by_config.items():
@@ -57,10 +212,38 @@ def run(chk, facts_by_config):
             found += 1
             for n in SHORT + longs:
                 jobs.append((cfgname, F.dir, fname, n))
+            report_all_lengths(chk, 'TA-total-all-lengths', all_lengths(F.mono, cfgname, fname))
         chk.floor('anchors', found, 'fns.' + cfgname)
     jobs.sort(key=lambda j: -j[3])
+    sjobs = [(c, F.dir, fname, n, sym) for c, F in facts_by_config.items() for fname in ('belt_wblock_enc', 'belt_wblock_dec')
+             if 'verif_root__belt_block__free__' + fname in F.mono.roots
+             for sym in (False, True)
+             for n in (STEP_SYM if sym else STEP_THOROUGH if chk.tier == 'thorough' else STEP_QUICK)]
+    sjobs.sort(key=lambda j: -j[3])
     with mp.Pool(min(16, os.cpu_count() or 4)) as pool:
+        sasync = pool.map_async(step_reference, sjobs, chunksize=1)
         results = pool.map(_one, jobs, chunksize=1)
+        sresults = sasync.get()
+    for (cfgname, fname, n, sym, ok, detail) in sorted(sresults, key=str):
+        key = '%s|%s|S|len=%d' % (cfgname, fname, n)
+        if sym:
+            key = '%s|%s|Si|len=%d' % (cfgname, fname, n)
+            if ok == 'loop-form':
+                if detail not in chk.undecided:
+                    chk.undecided.append('S-step-any-round: ' + detail)
+            elif ok:
+                chk.ok('S-step-any-round', key, dict(fn=fname, length=n, round='symbolic i (any round number)') if n == 32 else None)
+            elif ok is None:
+                chk.fail_closed('S-step-any-round', key, '%s len=%d: %s' % (fname, n, detail))
+            else:
+                chk.violation('S-step-any-round', key, 'one round of %s with round counter i on a %d-byte buffer differs from the reference step at %s' % (fname, n, detail))
+            continue
+        if ok:
+            chk.ok('S-step-reference', key, dict(fn=fname, length=n, equals='reference belt-wblock %s' % ('rounds 1..2n' if fname.endswith('enc') else 'inverse rounds 2n..1')) if n in (32, 33) else None)
+        elif ok is None:
+            chk.fail_closed('S-step-reference', key, '%s len=%d: %s' % (fname, n, detail))
+        else:
+            chk.violation('S-step-reference', key, '%s on a %d-byte buffer differs from the reference wide-block transformation at %s' % (fname, n, detail))
     for x in sorted(results, key=lambda x: (x['cfg'], x['fn'], x['n'])):
         fname, n = x['fn'], x['n']
         key = '%s|%s|len=%d' % (x['cfg'], fname, n)
